@@ -61,11 +61,12 @@ theorem c07_nullterm_write (cfg : Cfg) (k : Nat) (sg : Bool) (a : Nat) (vs : Lis
   simp only [ne_eq, not_true_eq_false, and_false, if_false]
   exact h2
 
-/-- **A fixed-size array of non-character elements with another number of elements is refused** on dump. -/
-theorem c07_size_refused (cfg : Cfg) (e : Ty) (n : Nat) (vs : Vals) (pos : Nat) (hstatic : (e.size cfg).isSome = true)
+/-- **A fixed-size array of non-character elements with another number of elements is refused** on dump - whatever the
+    element type, also one without a static size (`uleb128 x[3]`; the code used to skip the check there: fixed F62). -/
+theorem c07_size_refused (cfg : Cfg) (e : Ty) (n : Nat) (vs : Vals) (pos : Nat)
     (hlen : vs.length ≠ n) : write cfg (.arr e (.fixed n)) (.list vs) pos = .error .arraySize := by
   rw [Core.Lemmas.write_arr_list]
-  simp only [hstatic, ne_eq, hlen, not_false_eq_true, and_self, if_true]
+  simp only [ne_eq, hlen, not_false_eq_true, if_true]
 
 /-- **The bulk readers are the element reader, repeated**: `Packed._read_array`'s single `struct.unpack` of `n` items yields
     exactly what reading the `n` elements one after the other yields, and ends at the same position. -/
